@@ -719,6 +719,8 @@ def np_transpose(ex, args, kw):
         # np.transpose([vec]) -> column of shape (n,1)
         items = v[0].items
         return NDArray([len(items), 1], lambda idx: as_ndarray(Vec(items)).elem((idx[0],)), "f8")
+    if isinstance(v, (list, tuple)) and v and all(isinstance(x, (Vec, NDArray, list, tuple)) for x in v):
+        v = stack_rows(ex, [x if isinstance(x, (Vec, NDArray)) else Vec(x) for x in v])
     a = as_ndarray(v)
     return nd_T(ex, a)
 
